@@ -294,7 +294,7 @@ def cast_sites(fn):
     return out
 
 
-PANIC_CALLS = re.compile(r"(Option::unwrap|Option::expect|Result::unwrap|Result::expect|Result::unwrap_err|"
+PANIC_CALLS = re.compile(r"(Option::unwrap(?![a-z_])|Option::expect(?![a-z_])|Result::unwrap(?![a-z_])|Result::expect(?![a-z_])|Result::unwrap_err(?![a-z_])|"
                          r"panicking::|Index::index|IndexMut::index_mut|copy_from_slice|::pow$|ilog10|ilog2|"
                          r"unreachable|slice_index|unwrap_failed|expect_failed|begin_panic)")
 
